@@ -1,4 +1,5 @@
 import FuraxProofs.Props.C04
+import FuraxProofs.Props.C04Closed
 #print axioms Furax.C04.as_matrix_resolution_pinned
 #print axioms Furax.C04.generic_as_matrix_columns
 #print axioms Furax.C04.mv_eq_as_matrix_mulVec
@@ -12,3 +13,9 @@ import FuraxProofs.Props.C04
 #print axioms Furax.C04.reshape_override
 #print axioms Furax.C04.inverse_override
 #print axioms Furax.C04.chain_homogeneous
+#print axioms Furax.C04.application_additive
+#print axioms Furax.C04.application_is_dense_matrix
+#print axioms Furax.C04.dense_matrix_faithful
+#print axioms Furax.C04.dense_matrix_of_composition
+#print axioms Furax.C04.dense_matrix_of_sum
+#print axioms Furax.C04.dense_matrix_of_lazy_inverse
